@@ -1,7 +1,8 @@
 (* C10 -- error reports are in bounds, not before consumed input, and truthful. Statements only. *)
 From Coq Require Import List NArith.
-From PT Require Import Model.Base Model.Stack Model.Texpr Model.Sem Model.Tracker.
-From PT Require Import Proofs.TrackerProofs Proofs.ErrorLocation Proofs.CheckParse Proofs.TraceSound.
+From PT Require Import Model.Base Model.Stack Model.Texpr Model.Sem Model.Tracker Model.Report.
+From Coq Require Import Sorted.
+From PT Require Import Proofs.TrackerProofs Proofs.ErrorLocation Proofs.CheckParse Proofs.TraceSound Proofs.ReportProofs.
 Import ListNotations.
 
 (* the reported location is never before the starting cursor (boundary / upper bound: C09_error_location) *)
@@ -154,3 +155,41 @@ Theorem C10_justified_discriminates : forall E r p,
   r_body (e_rules E r) = TFail -> ~ justified E (EExit r p true).
 Proof. exact justified_discriminates. Qed.
 Print Assumptions C10_justified_discriminates.
+
+(* ---- the RENDERED report (Model/Report.v transcribes Tracker::collect_to_message: one line per entry in BTreeMap order,
+   lists sorted and de-duplicated, "Expected" / "Unexpected" / "Unexpected .., expected .." by which lists are empty) ---- *)
+
+(* every line comes from an entry of the tracker and calls a rule "expected" exactly when it is among that entry's
+   positives, "unexpected" exactly when among its negatives; the enclosing rule and the special errors are the entry's *)
+Theorem C10_report_says : forall t l, In l (report t) ->
+  exists en, In en (t_attempts t) /\ l_by l = te_key en /\ l_special l = te_spec en /\
+             (forall r, In r (says_expected l) <-> In r (te_pos en)) /\
+             (forall r, In r (says_unexpected l) <-> In r (te_neg en)).
+Proof. exact report_says. Qed.
+Print Assumptions C10_report_says.
+
+Theorem C10_report_complete : forall t en, In en (t_attempts t) -> In (line_of_entry en) (report t).
+Proof. exact report_complete. Qed.
+Print Assumptions C10_report_complete.
+
+Theorem C10_report_lists_sorted : forall e,
+  StronglySorted N.lt (says_expected (line_of_entry e)) /\ StronglySorted N.lt (says_unexpected (line_of_entry e)).
+Proof. exact report_lists_sorted. Qed.
+Print Assumptions C10_report_lists_sorted.
+
+(* hence the statement of the property on the text of the report of a rejected full parse: every rule a line lists as expected
+   really fails at the reported location in a context it was tried in (or is EOI and the location is not the end of input),
+   every rule listed as unexpected really matches there *)
+Theorem C10_rendered_report_truthful : forall E fuel r st',
+  try_parse E fuel r = Fail st' ->
+  let T := run_tracker (i_start (e_inp E)) (tr st') in
+  forall l, In l (report T) ->
+    (forall r', In r' (says_expected l) ->
+       (r' = e_eoi E /\ i_at_end (e_inp E) (t_position T) = false) \/
+       (exists fuel' inh' st1,
+          verdict (tcheck E fuel' inh' (r_body (e_rules E r')) (t_position T) (ev (EEnter r' (t_position T)) st1)) = Some false)) /\
+    (forall r', In r' (says_unexpected l) ->
+       exists fuel' inh' st1,
+          verdict (tcheck E fuel' inh' (r_body (e_rules E r')) (t_position T) (ev (EEnter r' (t_position T)) st1)) = Some true).
+Proof. exact rendered_report_truthful. Qed.
+Print Assumptions C10_rendered_report_truthful.
